@@ -568,6 +568,19 @@ int yr_arena_load_stream(YR_STREAM* stream, YR_ARENA** arena)
   if (read != hdr.num_buffers)
     return ERROR_CORRUPT_FILE;
 
+  // The offset of each buffer must be the offset of the previous one plus its
+  // size, starting right after the buffer table.
+  uint64_t expected_offset = sizeof(hdr) +
+                             sizeof(buffers[0]) * hdr.num_buffers;
+
+  for (int i = 0; i < hdr.num_buffers; ++i)
+  {
+    if (buffers[i].offset != expected_offset)
+      return ERROR_CORRUPT_FILE;
+
+    expected_offset += buffers[i].size;
+  }
+
   YR_ARENA* new_arena;
 
   FAIL_ON_ERROR(yr_arena_create(hdr.num_buffers, 10485, &new_arena))
@@ -609,6 +622,7 @@ int yr_arena_load_stream(YR_STREAM* stream, YR_ARENA** arena)
     YR_ARENA_BUFFER* b = &new_arena->buffers[reloc_ref.buffer_id];
 
     if (reloc_ref.buffer_id >= new_arena->num_buffers ||
+        b->used < sizeof(void*) ||
         reloc_ref.offset > b->used - sizeof(void*) ||
         b->data == NULL)
     {
@@ -619,6 +633,15 @@ int yr_arena_load_stream(YR_STREAM* stream, YR_ARENA** arena)
     YR_ARENA_REF ref;
 
     memcpy(&ref, b->data + reloc_ref.offset, sizeof(ref));
+
+    // The reference must be null or point to some data within the arena.
+    if (!YR_ARENA_IS_NULL_REF(ref) &&
+        (ref.buffer_id >= new_arena->num_buffers ||
+         ref.offset >= new_arena->buffers[ref.buffer_id].used))
+    {
+      yr_arena_release(new_arena);
+      return ERROR_CORRUPT_FILE;
+    }
 
     void* reloc_ptr = yr_arena_ref_to_ptr(new_arena, &ref);
 
